@@ -3,6 +3,7 @@
 
   cfg <names A|B|…> <logSelect 0|1> <logWake 0|1> <byEffect 0|1>   → ok   (table and switches come from the translator via the check)
   reset                                             → ok          (empty server, empty log, db 0)
+  restart                                           → ok          (server restarted on the same file with its dataset: new connection in db 0, `last_db` unknown)
   ev cmd <viaExec 0|1> <now> <obs> <arg-hex>…        → <entries appended> # <db selected afterwards> # <covered 0|1> # <inModel 0|1>
                                                        (obs: what a SPOP/SRANDMEMBER/RANDOMKEY drew, the id an `XADD *` was assigned; `_` none)
   ev wake <db> <now> <L|R> <key-hex>                 → same
@@ -57,6 +58,7 @@ def step (st : St) (ws : List String) : St × String :=
     let w := if names == "." then [] else names.splitOn "|"
     ({ st with cfg := { writes := w, logSelect := ls == "1", logWake := lw == "1", byEffect := le == "1" } }, "ok")
   | ["reset"] => ({ st with live := {}, lst := {}, entries := [] }, "ok")
+  | ["restart"] => ({ st with live := st.live.restarted, lst := LogSt.restarted }, "ok")
   | "ev" :: "cmd" :: ve :: now :: obs :: args =>
     match now.toNat?, parseObs obs, args.mapM ofHex with
     | some now, some obs, some raw =>
